@@ -829,7 +829,7 @@ func c14Concurrent(c *Ctx, r *rng.R, round int) {
 
 func runC14(c *Ctx) {
 	c.Res.Rule = "(a) random op lists on memdb.New(cmp, capacity) for bytewise/lenfirst/reverse user comparers and the internal-key comparer over them: Put (new keys and overwrites that change the value length; arguments poisoned afterwards), Delete of present/absent keys, Get/Find/Contains, Len/Size/Capacity-Free, Reset and reuse, up to 4 live iterators (nil range, half-open, inverted and empty ranges) moved at random BETWEEN the mutations; every answer is compared with a sorted-slice oracle kept in Go (key-based cursor for iterators) and, line by line, with the Lean model (tower heights reproduced from memdb's fixed seed). Not generated because the contract does not cover it: Next on an iterator whose current node was deleted, Next/Prev on an iterator after Reset (both are re-positioned by First/Last/Seek first). One evaluation per op; non-trivial = the table was non-empty when the op ran; distinct by (comparer, op, key, table size). (b) one writer (Put of new keys and overwrites, values carry key and version) with 4-16 reader goroutines doing Get/Find and ranged iterator walks: no panic, Next strictly increasing, Prev strictly decreasing, inside the range, every pair yielded was issued by the writer with that version, versions read by Get never go back, a full scan misses no key stored before it began, final contents exact. One evaluation per run; non-trivial = iterators yielded pairs while the writer ran. The race detector is not available inside vh (no -race build of the harness): data races that do not corrupt an answer are not detected here."
-	ncases := c.Scale(4000, 40000)
+	ncases := c.Scale(4000, 24000)
 	for i := 0; i < ncases && c.TimeLeft(); i++ {
 		r := c.R.Fork()
 		ci := i
